@@ -92,11 +92,19 @@ fn mesh_scenario(w: &mut World, ctx: &RunCtx, states: &mut Vec<u64>) -> Result<(
     // translating NATs with a port forward: the node is seen and reached under a public address only
     let use_xlat = w.ch.chance("use_translating_nat", 300);
     let many_addrs = w.ch.chance("use_many_advertised_addresses", 300);
+    // unencrypted meshes (everybody enabled 'plain') grow like any other
+    let plain = w.ch.chance("plain_mesh", 150);
+    if plain {
+        w.count("c14_plain_meshes");
+    }
     for i in 0..n {
         let mut c = if tap { mesh::tap_node(i) } else { mesh::tun_node(i) };
         c.key = k;
         c.nat = nat[i];
         c.tick_phase_ms = w.ch.choose("tick_phase", 1000) as u64;
+        if plain {
+            c.algorithms = vec!["plain".into()];
+        }
         if many_addrs {
             // advertised addresses nobody listens on (0..=9 per family)
             let count = *w.ch.pick("advertised_count", &[0u32, 1, 3, 6, 7, 8, 9]);
